@@ -217,7 +217,7 @@ CONFIG = {
     "C10": {
         "level": "exploration",
         "rule": "C10: exhaustive self-deadlock sweep over every public method of the 20 collection types; generated concurrent programs checked for linearizability (porcupine) and structural integrity; the same kind of programs under the race detector with classified reports.",
-        "groups": [G("c10", run="TestMethodSelfDeadlock|TestLinearizability", shards={"quick": 4, "thorough": 16}, timeout={"quick": 600, "thorough": 3000}),
+        "groups": [G("c10", run="TestMethodSelfDeadlock|TestLinearizability|TestDrainStress", shards={"quick": 4, "thorough": 16}, timeout={"quick": 600, "thorough": 3000}),
                    G("c10", race=True, race_classified=True, run="TestRaceDetector|TestKnownFindings", shards={"quick": 4, "thorough": 16}, timeout={"quick": 600, "thorough": 3000})],
         "assumptions": [
             "the sequential specification used by the linearizability check is the structure's own single-goroutine behaviour (replayed on a fresh instance); that behaviour is checked against independent models by C09/C11/C12/C13",
@@ -227,11 +227,29 @@ CONFIG = {
             "open known finding F25: race reports whose racing read is Size/IsEmpty/IsFull (unlocked readers) are counted, not reported as new violations",
         ],
     },
+    "C17": {
+        "level": "exploration",
+        "rule": "C17: stateful histories on a logger without background goroutine under a virtual clock against a file-system + rate-limiter model; Read windows over inside/outside names; concurrent logging with a schedule-independent oracle.",
+        "groups": [G("c17", shards={"quick": 4, "thorough": 16}, timeout={"quick": 400, "thorough": 2400}, env={"TZ": "UTC"})],
+        "assumptions": [
+            "the virtual clock is real time plus a delta and stays within 2001-2087; dates are UTC days; a case whose clock bracket straddles midnight during logger creation or a cycle is skipped",
+            "limiter ids are non-empty and few enough that the 1000-entry limiter store never evicts; message-keyed messages start with exactly 10 prefix bytes; messages are single-line and carry a unique marker",
+            "suppression is modelled as 'iff same id within the interval'; level-gated calls do not touch the limiter; between a date/rotation change and the next cycle a line may be in either file",
+            "with rotation off or keep-days <= 0 files past keep-days are not asserted (ambiguous in the statement), everything else must stay intact",
+            "own-prefix dated files with an extension other than .log are not planted; Read lengths are >= 1, name resolution is lexical, no symlinks",
+            "uses the verif hooks logfile.NewNoRunForVerif / CycleForVerif / CloseForVerif (the real 10 s goroutine and its one-minute gate are bypassed)",
+        ],
+    },
 }
 
 NOT_APPLICABLE = {}
 
 MANIFEST_TEXT = {
+    "C17": {
+        "technique": "stateful (model-based) property-based testing under a virtual clock: file-system + rate-limiter model, planted look-alike files for retention, Read window oracle, concurrent logging with schedule-independent oracle",
+        "level_text": "Generated-history exploration: log calls over all 12 methods with colliding limiter ids, clock advances across midnights and interval boundaries, cycles, configuration changes and planted files (own dated files of every age, own-prefix non-dates, foreign look-alikes, directories); after every cycle the complete logs directory is compared with the model. Read is exercised with 29 name templates incl. traversal.",
+        "level_note": "Lines are identified by unique markers, not by formatting details. Goroutine interleaving in the concurrent sub-check is whatever the scheduler gives.",
+    },
     "C10": {
         "technique": "exhaustive enumeration of (type, method, state) for self-deadlock; generated concurrent programs with linearizability checking (porcupine) and race-detector report classification",
         "level_text": "Exhaustive over every exported method of the 20 collection types in three states for the self-deadlock clause (decisive); generated-program exploration for linearizability (invocation/response histories checked with porcupine against the sequential behaviour, structural audit after every run) and for data races (binary built with -race, each report attributed to its case and classified).",
